@@ -527,6 +527,7 @@ func checkC05(c *Check) {
 		}
 	}
 	c05PerDomainState(c)
+	c05ADPerServer(c, "R10")
 }
 
 // R9: a policy's per-message object outlives one destination: the remote target calls PrepareDomain once per
@@ -1028,4 +1029,102 @@ func c05Override(c *Check) {
 	gets := callers(calling("~/internal/smtpconn/pool.P.Get"))
 	c.Hold("R4", "pool.Get:callers", token.NoPos, len(gets) == 1 && gets["connectionForDomain"] == 1, "pooled connections are taken outside connectionForDomain")
 
+}
+
+
+// c05ADPerServer: the DNSSEC "authenticated data" bit is the only thing MX_DNSSEC, DANE and min_mx_level dnssec rest
+// on, and it is believed only from a resolver on the loopback interface (the channel to any other resolver can be
+// tampered with). The resolver list has several entries and a later one answers when an earlier one does not: the
+// decision must be made for the server the response came from.
+func c05ADPerServer(c *Check, rule string) {
+	c.Rule(rule, "extended resolver: a response is handed on with its AD bit intact only under a loopback test of the very server it was obtained from – evaluated in the world where that server is not a loopback address, every successful return of the response passes `AuthenticatedData = false`", 1)
+	r := c.need(rule, "framework/dns", "ExtResolver", "exchange")
+	if r == nil {
+		return
+	}
+	info := r.Info
+	msg := "undecided: no exchange with a server of the configured list inside a loop"
+	n := 0
+	for _, l := range elemLoops(info, r.FI.Decl.Body, func(e ast.Expr) bool {
+		sl, ok := info.TypeOf(e).Underlying().(*types.Slice)
+		return ok && isStringType(sl.Elem())
+	}) {
+		l := l
+		elem := l.ElemObj()
+		mentionsElem := func(e ast.Node) bool {
+			found := false
+			ast.Inspect(e, func(x ast.Node) bool {
+				if ex, ok := x.(ast.Expr); ok && l.IsElem(ex) {
+					found = true
+				}
+				return !found
+			})
+			return found || (elem != nil && mentions(info, e, elem))
+		}
+		for _, pt := range r.F.Points() {
+			as, ok := pt.Node().(*ast.AssignStmt)
+			if !ok || len(as.Rhs) != 1 || !posIn(l.Body, as.Pos()) {
+				continue
+			}
+			call, ok := ast.Unparen(as.Rhs[0]).(*ast.CallExpr)
+			if !ok || !containsFold(methodName(call), "exchange") || !mentionsElem(call) || len(as.Lhs) < 2 {
+				continue
+			}
+			resp := objOf(info, as.Lhs[0])
+			if resp == nil {
+				continue
+			}
+			n++
+			msg = ""
+			clears := func(q Pt) bool {
+				a2, ok := q.Node().(*ast.AssignStmt)
+				if !ok || len(a2.Lhs) != 1 || len(a2.Rhs) != 1 {
+					return false
+				}
+				sel, ok := ast.Unparen(a2.Lhs[0]).(*ast.SelectorExpr)
+				if !ok || sel.Sel.Name != "AuthenticatedData" || objOf(info, sel.X) != resp {
+					return false
+				}
+				tv, has := info.Types[a2.Rhs[0]]
+				return has && tv.Value != nil && tv.Value.String() == "false"
+			}
+			errObj := errVarAssigned(info, as, call)
+			// the world: this exchange succeeded, and the server is not a loopback address
+			remote := r.F.World(func(atom ast.Expr) (bool, bool) {
+				atom = ast.Unparen(atom)
+				if call, ok := atom.(*ast.CallExpr); ok && len(call.Args) == 1 && containsFold(exprStr(call.Fun), "loopback") && mentionsElem(call.Args[0]) {
+					return false, true
+				}
+				if be, ok := atom.(*ast.BinaryExpr); ok && errObj != nil && (be.Op == token.EQL || be.Op == token.NEQ) && objOf(info, be.X) == errObj && isNilIdent(info, be.Y) {
+					return be.Op == token.EQL, true
+				}
+				return false, false
+			})
+			// … and stays a success: a later failure recorded in the same error variable is not a hand-over
+			failsLater := func(q Pt) bool {
+				a2, ok := q.Node().(*ast.AssignStmt)
+				if !ok || q == pt || errObj == nil || len(a2.Lhs) != len(a2.Rhs) {
+					return false
+				}
+				for i, lh := range a2.Lhs {
+					if objOf(info, lh) == errObj && nonNilErrExpr(info, a2.Rhs[i]) {
+						return true
+					}
+				}
+				return false
+			}
+			handsOn := func(q Pt) bool {
+				_, ret := r.F.Exit(q)
+				if ret == nil || len(ret.Results) == 0 {
+					return false
+				}
+				return objOf(info, ret.Results[0]) == resp
+			}
+			redefined := func(q Pt) bool { return q != pt && q.Node() != nil && assignsObj(info, q.Node(), resp) }
+			if path, f := r.F.Reach(Query{From: []Pt{pt}, Target: handsOn, Avoid: func(q Pt) bool { return clears(q) || redefined(q) || failsLater(q) }, AvoidEdge: remote}); f {
+				msg = "the response of a server that is not on the loopback interface can be returned with its AD bit as received (the loopback decision is not made for the server that answered): a forged AD=1 from a fallback resolver makes the MX count as DNSSEC-authenticated and its TLSA records as usable: " + r.F.Describe(path)
+			}
+		}
+	}
+	c.Hold(rule, "ExtResolver.exchange:ad-per-server", r.FI.Decl.Pos(), msg == "" && n > 0, msg)
 }
